@@ -40,7 +40,9 @@ def run(ck, prog):
         "determinable role (type of an indexed value / declared type: a symbol's `typ`, an indexed ast::Type, a "
         "constant type) the receiver is not a declared type and the target is not a value's type; (R13.7) the "
         "variables bound by !foreach, !filter and !foldl are named by and typed from the operands the reference "
-        "says (operand positions read off `values.get(k)` through the provenance chain).")
+        "says (operand positions read off `values.get(k)` through the provenance chain); (R13.8) can_be_casted_to, "
+        "evaluated from its MIR on every pair of field-less types, contains the reflexive pairs, `?` and Any in both "
+        "positions, int<->bit, int<->bits, string<->code, and no pair of unrelated scalars.")
     ck.trusted = ["reference arity table in tdq/ref.py (rows marked unsure are informational)"]
     for r, t in (("R13.1", "syntax errors come from every workspace file, paired with that file"),
                  ("R13.2", "failed lookups are reported"),
@@ -48,7 +50,8 @@ def run(ck, prog):
                  ("R13.4", "type checks are wired to diagnostics; template-argument check at every class reference"),
                  ("R13.5", "IndexCtx::error always records, under the current file"),
                  ("R13.6", "cast checks run from the value's type to the declared type"),
-                 ("R13.7", "bang-operator variables are typed by the operand the reference says")):
+                 ("R13.7", "bang-operator variables are typed by the operand the reference says"),
+                 ("R13.8", "the cast relation contains the language's conversions and no unrelated scalar pair")):
         ck.rule(r, t)
     r131(ck, prog)
     r132(ck, prog)
@@ -364,6 +367,78 @@ def r134(ck, prog):
                       "a value's type" if "value" in ar else "a type of undetermined role", b.where(i)))
     ck.floor("R13.6", "can_be_casted_to sites with a determinable role", nd, 40)
     r137(ck, prog)
+    r138(ck, prog)
+    # diagnostics are filed under the file being walked: the include stack is a stack and is balanced
+    from .c05 import file_stack_rule
+    ck.rule("R13.9", "diagnostics are attributed to the file being walked (include stack balanced, a real stack)")
+    file_stack_rule(ck, prog, "R13.9")
+
+
+def r138(ck, prog):
+    """the cast relation on field-less types, read off can_be_casted_to by evaluating its MIR on every pair of variants:
+    it must contain the pairs the language defines (reflexive; `?` and the empty-list element type `Any` fit everything
+    and everything fits them; int <-> bit, int <-> bits<n>, string <-> code) and must not contain a pair of unrelated
+    scalar types (a type-incompatible initialiser is then reported)."""
+    from .. import mirexec
+    CAST = "ide::symbol_map::typ::Type::can_be_casted_to"
+    TY = "ide::symbol_map::typ::Type"
+    b = prog.body(CAST)
+    ck.anchor(b is not None and TY in prog.adts, "Type::can_be_casted_to / Type not found")
+    variants = prog.adts[TY]["variants"]
+    idx = {v["name"]: k for k, v in enumerate(variants)}
+    need = ("Bit", "Int", "String", "Code", "Dag", "Uninitialized", "Any", "Bits")
+    ck.anchor(all(n in idx for n in need), "Type has lost one of the variants %s" % (need,))
+
+    def val(name):
+        fields = [("int", 8)] if name == "Bits" else []
+        return ("variant", name, idx[name], fields)
+
+    def oracle(fr, callee, args, t):
+        if re.search(r"PartialEq(<[^>]*>)?( for [^>]*)?>::(eq|ne)$|PartialEq::(eq|ne)$", callee):
+            vs = []
+            for a in args[:2]:
+                n = 0
+                while a is not None and a[0] == "ref" and n < 4:
+                    a = fr.read_place(a[1])
+                    n += 1
+                if a is None:
+                    raise mirexec.Unsupported("comparison of an unknown value")
+                vs.append(a)
+            same = vs[0] == vs[1]
+            return ("int", 1 if same == callee.endswith("::eq") else 0)
+        raise mirexec.Unsupported("call to %s" % callee)
+
+    def cast(a, c):
+        fr = mirexec.Frame(b, oracle)
+        fr.locals[1] = val(a)
+        fr.locals[2] = ("self", ("symbol_map",))
+        fr.locals[3] = val(c)
+        out = fr.run(0)
+        if out[0] != "return" or out[1] is None or out[1][0] != "int":
+            raise mirexec.Unsupported("result %s" % (out,))
+        return bool(out[1][1])
+    scalars = ("Bit", "Int", "String", "Code", "Dag")
+    both = {frozenset(("Int", "Bit")), frozenset(("Int", "Bits")), frozenset(("String", "Code"))}
+    n = 0
+    for a in need:
+        for c in need:
+            want = None
+            if a == c or a in ("Uninitialized", "Any") or c in ("Uninitialized", "Any") or frozenset((a, c)) in both:
+                want = True
+            elif a in scalars and c in scalars:
+                want = False
+            if want is None:
+                continue
+            n += 1
+            try:
+                got = cast(a, c)
+            except mirexec.Unsupported as e:
+                ck.anchor(False, "can_be_casted_to could not be evaluated on (%s, %s): %s" % (a, c, e))
+            ck.ob("R13.8", "cast:%s->%s" % (a, c), got == want, "%s %s %s" % (a, "fits" if want else "does not fit", c),
+                  msg="Type::can_be_casted_to: a value of type %s %s a slot of type %s, the language says it %s — %s" % (
+                      a, "fits" if got else "does not fit", c, "does" if want else "does not",
+                      "a well-formed program gets a diagnostic" if want else "an incompatible initialiser is not reported"))
+    ck.floor("R13.8", "variant pairs of the cast relation evaluated", n, 40)
 
 
 def _deep(prog, b, op, depth=0, seen=frozenset()):
